@@ -188,11 +188,16 @@ def run_load(name, fmt, api, data, consume=("exhaust", 0), knobs=None, budget=No
         # environment knob: the caller runs with warnings promoted to errors (python -W error)
         warnings.simplefilter("error" if knobs.get("warnings") == "error" else "always")
         try:
+            arg = name
+            if knobs.get("pathlib"):
+                import pathlib
+
+                arg = pathlib.Path(name)  # a legal way to name the file
             if api == "load_one":
-                rec["frames"] = [iodata.load_one(name, fmt=fmt)]
+                rec["frames"] = [iodata.load_one(arg, fmt=fmt)]
                 rec["finished"] = True
             else:
-                g = iodata.load_many(name, fmt=fmt)
+                g = iodata.load_many(arg, fmt=fmt)
                 try:
                     on_frame = None
                     if endlines is not None:
@@ -538,7 +543,8 @@ def gen_trace(rng, tier):
              "consume": [rng.choice(["exhaust", "list", "close", "drop"]), rng.randint(0, 3)],
              "knobs": {"chunk_size": rng.choice([None, None, 16, 512]),
                        "encoding": rng.choice(["utf-8"] * 6 + ["ascii", "latin-1"]),
-                       "warnings": "error" if rng.random() < 0.12 else "always"}}
+                       "warnings": "error" if rng.random() < 0.12 else "always",
+                       "pathlib": rng.random() < 0.1}}
     if fmt is not None and not selectable(name, api, fmt):
         trace["api"] = api  # kept: FileFormatError expected
     return trace
